@@ -19,6 +19,10 @@ from . import sym
 from .sym import SymNum, SymBool, PathAbort, Unsupported, BudgetExceeded
 
 
+import os as _os
+_PVC_DIR = _os.path.dirname(_os.path.abspath(__file__))
+
+
 class Raised:
     """result of env.call when the function raised"""
 
@@ -78,39 +82,62 @@ class Run:
         self.path = []  # z3 bools
         self.solver = explorer.solver
         self.n_solver = 0
+        self.model = None
 
     # --- symbolic branch on a z3 Bool
+    def _take(self, t, taken):
+        self.decisions.append((taken, 2, 'b'))
+        c = t if taken == 0 else z3.Not(t)
+        self.path.append(c)
+        self.solver.add(c)
+
+    def _model(self):
+        """a model of the current path condition (kept valid along the path)"""
+        if self.model is None:
+            self.n_solver += 1
+            r = self.solver.check()
+            if r == z3.sat:
+                self.model = self.solver.model()
+            elif r == z3.unsat:
+                raise PathAbort("path infeasible")
+        return self.model
+
     def branch(self, t):
         ex = self.ex
         if self.pos < len(self.prefix):
             taken = self.prefix[self.pos][0]
             self.pos += 1
-            self.decisions.append((taken, 2, 'b'))
-            c = t if taken == 0 else z3.Not(t)
-            self.path.append(c)
-            self.solver.add(c)
+            self._take(t, taken)
+            self.model = None
             return taken == 0
         ex.check_budget()
-        can_t = self._feasible(t)
-        can_f = self._feasible(z3.Not(t))
         self.pos += 1
-        if can_t and can_f:
-            ex.queue.append(self.decisions + [(1, 2, 'b')])
-            self.decisions.append((0, 2, 'b'))
-            self.path.append(t)
-            self.solver.add(t)
-            return True
-        if can_t:
-            self.decisions.append((0, 2, 'b'))
-            self.path.append(t)
-            self.solver.add(t)
-            return True
-        if can_f:
-            self.decisions.append((1, 2, 'b'))
-            self.path.append(z3.Not(t))
-            self.solver.add(z3.Not(t))
-            return False
-        raise PathAbort("both sides infeasible (unknown?)")
+        m = self._model()
+        side = None
+        if m is not None:
+            v = m.eval(t, model_completion=True)
+            if z3.is_true(v):
+                side = 0
+            elif z3.is_false(v):
+                side = 1
+        if side is None:
+            # no usable model (solver answered unknown): decide both sides with the solver
+            can_t = self._feasible(t)
+            can_f = self._feasible(z3.Not(t))
+            self.model = None
+            if can_t and can_f:
+                ex.queue.append(self.decisions + [(1, 2, 'b')])
+                self._take(t, 0)
+                return True
+            if can_t or can_f:
+                self._take(t, 0 if can_t else 1)
+                return can_t
+            raise PathAbort("both sides infeasible")
+        other = z3.Not(t) if side == 0 else t
+        if self._feasible(other):
+            ex.queue.append(self.decisions + [(1 - side, 2, 'b')])
+        self._take(t, side)   # the kept model still satisfies the path
+        return side == 0
 
     def _feasible(self, t):
         self.n_solver += 1
@@ -241,6 +268,7 @@ class Env:
         res = r.solver.check()
         if res == z3.unsat:
             raise PathAbort("assumption infeasible")
+        r.model = r.solver.model() if res == z3.sat else None
 
     def cover(self, label):
         self.ex.covered[label] = self.ex.covered.get(label, 0) + 1
@@ -254,6 +282,8 @@ class Env:
         if ex.ignore_label is not None and ex.ignore_label(label):
             return True
         ex.obl_count[label] = ex.obl_count.get(label, 0) + 1
+        if label in ex.known_labels and any(f.label == label for f in ex.failures):
+            return True  # known finding already witnessed once in this job
         if not self.symbolic:
             ok = bool(cond)
             if not ok:
@@ -345,6 +375,11 @@ class Env:
         try:
             return fn(*a, **kw)
         except Exception as e:  # noqa
+            tb = e.__traceback__
+            while tb is not None and tb.tb_next is not None:
+                tb = tb.tb_next
+            if tb is not None and tb.tb_frame.f_code.co_filename.startswith(_PVC_DIR):
+                raise Unsupported("engine error inside the proxies: %r" % (e,))
             return Raised(e, traceback.format_exc(limit=6))
 
 
@@ -392,7 +427,7 @@ class Sampler:
 
 class Explorer:
     def __init__(self, harness, params=None, max_paths=20000, timeout_s=300.0,
-                 solver_timeout_ms=10000, cvc5_timeout=20, seed=0):
+                 solver_timeout_ms=10000, cvc5_timeout=20, seed=0, initial_queue=None, slice_paths=None):
         self.harness = harness
         self.params = params or {}
         self.max_paths = max_paths
@@ -416,6 +451,10 @@ class Explorer:
         self.error = None
         self.samples = []
         self.ignore_label = None
+        self.initial_queue = initial_queue
+        self.slice_paths = slice_paths
+        self.sliced = False
+        self.known_labels = set()   # failures on these labels are recorded once and do not stop the exploration
 
     def check_budget(self):
         if self.paths + len(self.queue) > self.max_paths * 4 or (time.time() - self.t0) > self.timeout_s:
@@ -423,8 +462,14 @@ class Explorer:
 
     def run_all(self, stop_at_first_failure=True):
         self.t0 = time.time()
-        self.queue.append([])
+        if self.initial_queue is not None:
+            self.queue.extend([[tuple(d) for d in pf] for pf in self.initial_queue])
+        else:
+            self.queue.append([])
         while self.queue:
+            if self.slice_paths and self.paths >= self.slice_paths:
+                self.sliced = True  # hand the remaining frontier back to the scheduler
+                break
             if self.paths >= self.max_paths or (time.time() - self.t0) > self.timeout_s:
                 self.budget_exhausted = True
                 break
@@ -461,7 +506,7 @@ class Explorer:
                 pass
             self.solver.pop()
             sym.set_run(None)
-            if self.failures and stop_at_first_failure:
+            if stop_at_first_failure and any(f.label not in self.known_labels for f in self.failures):
                 break
         return self
 
@@ -469,6 +514,7 @@ class Explorer:
     def run_concrete(self, inputs, choices, sampler=None):
         sub = Explorer(self.harness, params=self.params)
         sub.ignore_label = self.ignore_label
+        sub.known_labels = set(self.known_labels) if sampler is not None else set()
         sub.t0 = time.time()
         env = Env(sub, concrete=dict(inputs=inputs, choices=choices, sampler=sampler), params=self.params)
         sym.set_run(None)
